@@ -184,4 +184,37 @@ theorem mAtomOf_in_ids (m : Mol) (sssr : List (List Nat)) (x : Nat) (a : MAtom) 
 theorem qAtomAt_mem (g : QGraph) (u : Nat) (q : QAtom) (h : qAtomAt g u = some q) : (u, q) ∈ g.atoms :=
   lookup_mem _ _ _ h
 
+set_option linter.unusedSimpArgs false in
+/-- a well-formed molecule gives a well-formed target graph for the matcher -/
+theorem molIso_wf (m : Mol) (hm : m.WF = true) : (molIsoGraph m).WF = true := by
+  have hm' := hm
+  simp only [Mol.WF, Bool.and_eq_true, List.all_eq_true, decide_eq_true_eq] at hm'
+  obtain ⟨⟨h1, h2⟩, h3⟩ := hm'
+  simp only [Iso.Graph.WF, Bool.and_eq_true, List.all_eq_true, decide_eq_true_eq]
+  refine ⟨⟨by simpa [molIsoGraph] using h1, ?_⟩, ?_⟩
+  · simp only [molIsoGraph, List.map_map]
+    have : ((fun p : Nat × List Nat => p.1) ∘ fun p : Nat × List (Nat × Bond) => (p.1, p.2.map (·.1))) = (·.1) := by
+      funext p; rfl
+    simpa [this] using h2
+  · rintro ⟨n, ms'⟩ hmem
+    simp only [molIsoGraph, List.mem_map] at hmem
+    obtain ⟨⟨n', l⟩, hl, heq⟩ := hmem
+    simp only [Prod.mk.injEq] at heq
+    obtain ⟨rfl, rfl⟩ := heq
+    have hn := h3 _ hl
+    simp only [Bool.and_eq_true, List.all_eq_true, decide_eq_true_eq] at hn
+    refine ⟨hn.1, ?_⟩
+    intro k hk
+    obtain ⟨⟨k', b⟩, hkb, rfl⟩ := List.mem_map.1 hk
+    have := hn.2 _ hkb
+    simp only [Bool.and_eq_true, bne_iff_ne, ne_eq, beq_iff_eq] at this
+    obtain ⟨⟨hne, hat⟩, hbond⟩ := this
+    refine ⟨⟨by simpa using hne, ?_⟩, ?_⟩
+    · simp only [Mol.hasAtom, List.any_eq_true, beq_iff_eq] at hat
+      obtain ⟨p, hp, rfl⟩ := hat
+      simp only [molIsoGraph, Mol.ids, List.contains_iff_mem]
+      exact List.mem_map.2 ⟨p, hp, rfl⟩
+    · simp only [Iso.Graph.hasBond, List.contains_iff_mem]
+      rw [molIso_mem_nbrs, hbond]; rfl
+
 end ChythonModel.Proofs.C08
